@@ -50,9 +50,9 @@ ASSUMPTIONS = [
     "magnitudes are bounded by construction (vt.gen.constgen.guard): unbounded compile-time folding (F19) is a listed "
     "finding and is never executed",
     "a macro is only called inside the autoescape region that defines it (calling it from a region with another "
-    "autoescape setting compares the lexical compile-time eval context with the dynamic run-time one: listed finding)",
+    "autoescape setting compares the lexical compile-time eval context with the dynamic run-time one: listed finding F40)",
     "environment finalize + active autoescape + a constant none in an output expression is a listed finding "
-    "(finalize sees the escaped text) and is excluded by construction",
+    "(F36: finalize sees the escaped text) and is excluded by construction",
     "the autoescape block argument itself is never lifted (true -> variable turns a static block into a runtime-decided "
     "one, whose ~ over-escapes: F5, not claimed)",
 ]
